@@ -976,6 +976,22 @@ func leBytesAt(v ssa.Value) (buf ssa.Value, off int64, width int, ok bool) {
 		}
 		seen[p.idx] = true
 	}
+	// the bytes may be taken from a constant-offset window of the buffer
+	for {
+		sl, isSl := base.(*ssa.Slice)
+		if !isSl {
+			break
+		}
+		k := int64(0)
+		if sl.Low != nil {
+			n, isK := ir.ConstInt(sl.Low)
+			if !isK {
+				break
+			}
+			k = n
+		}
+		base, lo = sl.X, lo+k
+	}
 	return base, lo, len(parts), true
 }
 
